@@ -47,6 +47,14 @@ CLAIMED['C03'] = (
     'SUTRA/AGS/SBT economics not modelled; float rounding and the sampled correspondence trusted (DESIGN §5)',
     'Lean 4 proof over an exact rational model + regenerated table (decide +kernel) + whole-run correspondence')
 
+CLAIMED['C11'] = (
+    'Lean theorems, for all scale factors k and all base inputs: every levelized cost is homogeneous of degree 1 in the cost inputs (all '
+    'three economic models, all end-uses), levelized cost has no price input, NPV responds strictly to a price rise in a year with energy '
+    'sold, energy x c divides the levelized cost by c (efficiency halved => LCOH doubled), zero add-on / zero-rate ITC / zero grant are '
+    'neutral; corollaries of the C01/C04/C16 models, which are re-tied to the code in this check, plus paired real runs of every relation.',
+    'kernel + propext/Classical.choice/Quot.sound; relations between real runs are sampled (Grid x relations); float rounding trusted (DESIGN §5)',
+    'Lean 4 proof (corollaries over exact models) + paired-run correspondence')
+
 PENDING_REASON = 'check not built yet in this commit (work in progress; see DESIGN.md §9 for the order)'
 
 
